@@ -86,6 +86,62 @@ ClassTab ==
     "A2K" :> K(FALSE, {1}, 1, 1, 1, {}, 0, {}) @@
     "LinExp" :> K(FALSE, {1, 2}, 5, 5, 1, {}, 0, {1}) @@
     "LPF" :> K(FALSE, {1, 2}, 2, 2, 1, {}, 0, {1}) @@
+    \* BEGIN DERIVED (harness/derive_classes.py: helper + n + arity + outputs read from the sc3 source)
+    "APF" :> K(FALSE, {1, 2}, 3, 3, 1, {}, 0, {1}) @@
+    "BAllPass" :> K(FALSE, {2}, 3, 3, 1, {}, 0, {1}) @@
+    "BBandPass" :> K(FALSE, {2}, 3, 3, 1, {}, 0, {1}) @@
+    "BBandStop" :> K(FALSE, {2}, 3, 3, 1, {}, 0, {1}) @@
+    "BHiPass" :> K(FALSE, {2}, 3, 3, 1, {}, 0, {1}) @@
+    "BHiShelf" :> K(FALSE, {2}, 4, 4, 1, {}, 0, {1}) @@
+    "BLowPass" :> K(FALSE, {2}, 3, 3, 1, {}, 0, {1}) @@
+    "BLowShelf" :> K(FALSE, {2}, 4, 4, 1, {}, 0, {1}) @@
+    "BPF" :> K(FALSE, {1, 2}, 3, 3, 1, {}, 0, {1}) @@
+    "BPZ2" :> K(FALSE, {1, 2}, 1, 1, 1, {}, 0, {1}) @@
+    "BPeakEQ" :> K(FALSE, {2}, 4, 4, 1, {}, 0, {1}) @@
+    "BRF" :> K(FALSE, {1, 2}, 3, 3, 1, {}, 0, {1}) @@
+    "BRZ2" :> K(FALSE, {1, 2}, 1, 1, 1, {}, 0, {1}) @@
+    "Balance2" :> K(FALSE, {1, 2}, 4, 4, 2, {1, 2}, 0, {}) @@
+    "BiPanB2" :> K(FALSE, {1, 2}, 4, 4, 3, {1, 2}, 0, {}) @@
+    "Decay" :> K(FALSE, {1, 2}, 2, 2, 1, {}, 0, {1}) @@
+    "Decay2" :> K(FALSE, {1, 2}, 3, 3, 1, {}, 0, {1}) @@
+    "DecodeB2" :> K(FALSE, {1, 2}, 4, 4, 0 - 1, {1, 2, 3}, 0, {}) @@
+    "DetectSilence" :> K(FALSE, {1, 2}, 4, 4, 1, {}, 0, {1}) @@
+    "FOS" :> K(FALSE, {1, 2}, 4, 4, 1, {}, 0, {1}) @@
+    "Formlet" :> K(FALSE, {1, 2}, 4, 4, 1, {}, 0, {1}) @@
+    "FreeVerb" :> K(FALSE, {2}, 4, 4, 1, {}, 0, {1}) @@
+    "FreeVerb2" :> K(FALSE, {2}, 5, 5, 2, {1, 2}, 0, {}) @@
+    "HPF" :> K(FALSE, {1, 2}, 2, 2, 1, {}, 0, {1}) @@
+    "HPZ1" :> K(FALSE, {1, 2}, 1, 1, 1, {}, 0, {1}) @@
+    "HPZ2" :> K(FALSE, {1, 2}, 1, 1, 1, {}, 0, {1}) @@
+    "Integrator" :> K(FALSE, {1, 2}, 2, 2, 1, {}, 0, {1}) @@
+    "LPZ1" :> K(FALSE, {1, 2}, 1, 1, 1, {}, 0, {1}) @@
+    "LPZ2" :> K(FALSE, {1, 2}, 1, 1, 1, {}, 0, {1}) @@
+    "LeakDC" :> K(FALSE, {1, 2}, 2, 2, 1, {}, 0, {1}) @@
+    "LinPan2" :> K(FALSE, {1, 2}, 3, 3, 2, {1}, 0, {}) @@
+    "LinXFade2" :> K(FALSE, {1, 2}, 3, 3, 1, {1, 2}, 0, {}) @@
+    "MidEQ" :> K(FALSE, {1, 2}, 4, 4, 1, {}, 0, {1}) @@
+    "MoogFF" :> K(FALSE, {1, 2}, 4, 4, 1, {}, 0, {1}) @@
+    "OnePole" :> K(FALSE, {1, 2}, 2, 2, 1, {}, 0, {1}) @@
+    "OneZero" :> K(FALSE, {1, 2}, 2, 2, 1, {}, 0, {1}) @@
+    "Pan4" :> K(FALSE, {1, 2}, 4, 4, 4, {1}, 0, {}) @@
+    "PanB" :> K(FALSE, {1, 2}, 4, 4, 4, {1}, 0, {}) @@
+    "PanB2" :> K(FALSE, {1, 2}, 3, 3, 3, {1}, 0, {}) @@
+    "PulseCount" :> K(FALSE, {1, 2}, 2, 2, 1, {}, 0, {1}) @@
+    "RHPF" :> K(FALSE, {1, 2}, 3, 3, 1, {}, 0, {1}) @@
+    "RLPF" :> K(FALSE, {1, 2}, 3, 3, 1, {}, 0, {1}) @@
+    "Resonz" :> K(FALSE, {1, 2}, 3, 3, 1, {}, 0, {1}) @@
+    "Ringz" :> K(FALSE, {1, 2}, 3, 3, 1, {}, 0, {1}) @@
+    "Rotate2" :> K(FALSE, {1, 2}, 3, 3, 2, {1, 2}, 0, {}) @@
+    "SOS" :> K(FALSE, {1, 2}, 6, 6, 1, {}, 0, {1}) @@
+    "SetResetFF" :> K(FALSE, {1, 2}, 2, 2, 1, {}, 0, {1}) @@
+    "Slope" :> K(FALSE, {1, 2}, 1, 1, 1, {}, 0, {1}) @@
+    "TDelay" :> K(FALSE, {1, 2}, 2, 2, 1, {}, 0, {1}) @@
+    "Timer" :> K(FALSE, {1, 2}, 1, 1, 1, {}, 0, {1}) @@
+    "TwoPole" :> K(FALSE, {1, 2}, 3, 3, 1, {}, 0, {1}) @@
+    "TwoZero" :> K(FALSE, {1, 2}, 3, 3, 1, {}, 0, {1}) @@
+    "XFade2" :> K(FALSE, {1, 2}, 4, 4, 1, {1, 2}, 0, {}) @@
+    "ZeroCrossing" :> K(FALSE, {1, 2}, 1, 1, 1, {}, 0, {1}) @@
+    \* END DERIVED
     "Out" :> K(TRUE, {1, 2}, 2, 64, 0, {}, 2, {}) @@
     "ReplaceOut" :> K(TRUE, {1, 2}, 2, 64, 0, {}, 2, {}) @@
     "LocalOut" :> K(TRUE, {1, 2}, 1, 64, 0, {}, 1, {}) @@
